@@ -86,6 +86,31 @@ def layouts(alphabet: Sequence[Atom], version: int = 8) -> Iterator[str]:
             yield f"#pragma version {version}\n" + t.replace("{ATOM}", "\n".join(a)) + "\n"
 
 
+# multi-way branches as consumers of a tracked condition / of a tracked field itself (soundness spaces only: whether
+# a `switch` on a comparison counts as "branched on" for the exactness claims is not settled by the properties)
+MULTIWAY: List[str] = [
+    "{ATOM}\nswitch La\nint 1\nreturn\nLa:\nerr",
+    "{ATOM}\nswitch La\nerr\nLa:\nint 1\nreturn",
+    "{ATOM}\nswitch La Lb\nerr\nLa:\nint 1\nreturn\nLb:\nint 1\nreturn",
+    "{ATOM}\nswitch La Lb\nint 1\nreturn\nLa:\nerr\nLb:\nint 1\nreturn",
+    "{ATOM}\nswitch La La\nerr\nLa:\nint 1\nreturn",
+    "int 1\n{ATOM}\nmatch La\nint 1\nreturn\nLa:\nerr",
+    "int 1\n{ATOM}\nmatch La\nerr\nLa:\nint 1\nreturn",
+    "int 0\nint 1\n{ATOM}\nmatch La Lb\nerr\nLa:\nint 1\nreturn\nLb:\nerr",
+    "int 0\nint 1\n{ATOM}\nmatch La Lb\nerr\nLa:\nerr\nLb:\nint 1\nreturn",
+    "callsub s\nint 1\nreturn\ns:\n{ATOM}\nswitch t\nretsub\nt:\nerr",
+    "b m\nok:\nint 1\nreturn\nm:\n{ATOM}\nswitch ok ok",
+]
+
+
+def multiway(alphabet: Sequence[Atom], version: int = 8) -> Iterator[str]:
+    for t in MULTIWAY:
+        for a in alphabet:
+            if any("@L" in l for l in a):
+                continue
+            yield f"#pragma version {version}\n" + t.replace("{ATOM}", "\n".join(a)) + "\n"
+
+
 def call_chains(tracked: Atom) -> Iterator[Tuple[Any, List[Atom]]]:
     """L4 - call chains main -> S0 -> S1 with optional checks / early exits before and after each
     call and in the innermost body (callees that end the program themselves, checks that only
